@@ -368,7 +368,6 @@ func (f *Fam) genTx1(r *rand.Rand, s *Snapshot) string {
 				ki, addr, signer = i, hx(o), i
 			}
 		}
-		aclFields := ""
 		val := ""
 		switch key {
 		case "pos/MaxValidators":
@@ -384,8 +383,7 @@ func (f *Fam) genTx1(r *rand.Rand, s *Snapshot) string {
 		case "gov/daoOwner":
 			val = fmt.Sprintf(`"%s"`, other)
 		case "gov/acl":
-			// hand one key over to another owner: the full new list goes to the implementation as JSON, the model is
-			// told which entry differs
+			// hand one key over to another owner, or drop it: the full new list goes to both sides as JSON
 			names := AllParamNames()
 			k := names[r.Intn(len(names))]
 			newOwner := Keys[r.Intn(NKeys)].Addr
@@ -402,10 +400,6 @@ func (f *Fam) genTx1(r *rand.Rand, s *Snapshot) string {
 			}
 			bz, _ := govTypes.ModuleCdc.MarshalJSON(na)
 			val = string(bz)
-			aclFields = fmt.Sprintf(" aclk=%s aclo=%s", k, hx(newOwner))
-			if drop {
-				aclFields = fmt.Sprintf(" aclk=%s aclo=", k)
-			}
 		case "pos/MinSignedPerWindow":
 			val = `"0.500000000000000000"`
 		default:
@@ -413,7 +407,6 @@ func (f *Fam) genTx1(r *rand.Rand, s *Snapshot) string {
 		}
 		if r.Intn(6) == 0 {
 			val = []string{`{`, `"abc"`, `[1]`, ``}[r.Intn(4)]
-			aclFields = ""
 		}
 		// only MaxValidators / daoOwner changes are tracked by the model; others are kept out of
 		// the modelled profile unless the generator is in the gov profile
@@ -421,7 +414,6 @@ func (f *Fam) genTx1(r *rand.Rand, s *Snapshot) string {
 		if val == "" {
 			fields = fmt.Sprintf("from=%s key=%s val=", addr, key)
 		}
-		fields += aclFields
 	case x < 93:
 		kind = "daotransfer"
 		fields = fmt.Sprintf("from=%s to=%s amt=%d", addr, other, pick(r, 1, 100, 1000, 50000000, 50000001, 0))
